@@ -40,6 +40,8 @@ def run(patch):
             # benign refactoring: its author's check script must still pass on the canonical form
             rc = subprocess.run(["/venv/bin/python", chk], cwd=d, capture_output=True, text=True, timeout=300)
             extra = f" check.py exit {rc.returncode}"
+            if rc.returncode and os.environ.get("SHOW"):
+                extra += "\n" + (rc.stdout + rc.stderr)[-1500:]
         r = subprocess.run(["/venv/bin/python", "-m", "pytest", "-q", "-p", "no:cacheprovider", "--no-cov", "-x"], cwd=d, capture_output=True, text=True)
         tail = (r.stdout.strip().splitlines() or [""])[-1]
         return f"suite exit {r.returncode}{extra} ({stats}) {tail[:100] if r.returncode else ''}"
